@@ -124,7 +124,7 @@ def violation_key(t, fail):
             if what == ':remote-operand':
                 return 'fragment:single-page:remote-operand', ('fragment: %s links to %s#%s, the anchor of an @remote address '
                                                                'that lives on another page' % (src, to, frag))
-        return '%s:%s->%s:%s%s' % (clause, sk, tk, mode, what), '%s: %s links to %s#%s' % (clause, src, to, frag)
+        return '%s:%s->%s:%s%s' % (clause, sk, tk, mode, what), '%s: %s links to %s%s' % (clause, src, to, '#' + frag if frag else '')
     if clause == 'expected-missing':
         return 'expected-missing:%s:%s' % (kind_of(kinds, parts[1]), mode), 'expected file %s was not written' % parts[1]
     if clause in ('anchor-missing', 'anchor-duplicate'):
